@@ -53,14 +53,16 @@ CLAIMS["C09"] = {
             "operation tables (every binary/unary operation on the carrier at once) and must return Ok exactly when the law, written from its "
             "mathematical statement, holds on all tuples: complete for each N in {1,2} (quick) and N = 3 (thorough); loops are bounded by "
             "N^3 with unwinding assertions on. Composite checkers (semigroup ... field) return Ok exactly when the component checkers of the "
-            "structure's definition do (N <= 2); in addition Verus proves, for every carrier type, every N and every closure, that each of the 11 "
-            "composite checkers (real bodies) returns Ok exactly when all laws of the structure it names hold, modularly against the leaf "
-            "checkers' contracts (Ok <=> law). The semiring applications BinaryTrust, Multiplicity and Cost of semiring_application.rs (add / mul / "
+            "structure's definition do (N <= 2); in addition Verus proves, for every carrier type, every N and every (deterministic) closure, that the six plain-loop leaf "
+            "checkers identity, inverse, nonzero_inverse, absorbing_element, idempotency and no_nonzero_zero_divisors (real bodies, loop invariants "
+            "inserted) return Ok exactly when the law written out over the items holds, and that each of the 11 composite checkers (real bodies) "
+            "returns Ok exactly when all laws of the structure it names hold, modularly against the leaf checkers' contracts (Ok <=> law). The semiring applications BinaryTrust, Multiplicity and Cost of semiring_application.rs (add / mul / "
             "zero / one bodies) are verified by Verus against abstract semirings whose laws are proved, with the no-overflow condition as an "
             "explicit precondition. This is the property's own quantifier decided symbolically instead of sampled.",
-    "note": "Trusted: Kani+CBMC, Verus+Z3; leaf checkers are decided for carriers of 1..3 elements only (their loops use cartesian_power, outside "
-            "Verus' subset), so the composites' unbounded proof rests on leaf contracts that are established bounded; Clone is assumed to return an "
-            "equal value; the f64 applications (ConfidenceScore, FuzzyLogic) are excluded.",
+    "note": "Trusted: Kani+CBMC, Verus+Z3; the four leaf checkers that iterate with cartesian_power (associativity, commutativity, left/right_distributes) plus linearity, "
+            "bilinearity and the get_single_function helpers are decided for carriers of 1..3 elements only (outside Verus' subset), so the "
+            "composites' unbounded proof rests on four leaf contracts that are established bounded; type-level hypotheses of the Verus unit: == / != on "
+            "the carrier is structural equality, Clone returns an equal value, closures can always be called and are deterministic; the f64 applications (ConfidenceScore, FuzzyLogic) are excluded.",
     "technique": "contract-based verification: Kani harness contracts (Ok <=> law) over symbolic operation tables on the real crate",
     "design": "DESIGN.md §5 C09, §6.1",
 }
@@ -210,19 +212,23 @@ CLAIMS["C05"] = {
     "design": "DESIGN.md §5 C05",
 }
 CLAIMS["C06"] = {
-    "text": "Partial, bounded: Atomize::atomize of SetUnion (quick), WithBot/WithTop over SetUnion, MapUnion over SetUnion, UnionFind (thorough; "
-            "minutes each) on operands of <= 2 elements: every atom is non-bottom, there are no atoms iff the value is bottom, and merging the atoms "
-            "into the default value gives back the original (model membership / the crate's own eq).",
-    "note": "Box<dyn Iterator> + flat_map make these harnesses slow (2 s to 20 min); only atomize_set_union is in the quick tier. std collections not covered.",
-    "technique": "contract-based verification: Kani bounded harness contracts on the real crate",
-    "design": "DESIGN.md §5 C06",
+    "text": "Partial, bounded: Atomize::atomize of SetUnion (operands <= 2 elements) and of WithTop<SetUnion> (<= 1 element, thorough): every atom is "
+            "non-bottom, there are no atoms iff the value is bottom, and merging the atoms into the default value gives back the original. "
+            "MapUnion::atomize is checked MODULARLY against the Atomize contract of its value type: a havoc value lattice whose atom iterator "
+            "yields its atoms in order and answers any size_hint the Iterator contract allows; for maps of <= 2 entries with <= 2 value atoms "
+            "each, the atoms are exactly {k: a} for every entry (k, v) and every atom a of v, in order.",
+    "note": "Box<dyn Iterator> + flat_map make whole-value harnesses very slow: WithBot<SetUnion>, MapUnion<_, SetUnion> and UnionFind atomize harnesses "
+            "exceed 40 min of CBMC even for one-element operands; they are kept in the harness crate with a `deep_` prefix and are in NO tier, so "
+            "WithBot::atomize and UnionFind::atomize are NOT covered. std collections not covered.",
+    "technique": "contract-based verification: Kani bounded harness contracts on the real Atomize impls; MapUnion against a havoc callee contract",
+    "design": "DESIGN.md §5 C06, §13",
 }
 CLAIMS["C07"] = {
     "text": "PairBimorphism::call is verified by Verus generically (r.a == lat_a, r.b == lat_b) and both distributivity equations are a lemma over "
             "the product carrier (lemma_pair_bimorphism). CartesianProductBimorphism::call is checked by Kani against its model (output == A x B, "
             "every pair once; distributivity over union is then set algebra about the model) and, in the thorough tier, by the two-call "
-            "distributivity equation and KeyedBimorphism::call against its key-wise model (operands <= 2 elements).",
-    "note": "GHT bimorphisms are not covered (see C08). Kani parts are bounded by operand size; Vec as output collection is trusted.",
+            "distributivity equation (operands <= 2 elements).",
+    "note": "GHT bimorphisms are not covered (see C08). KeyedBimorphism::call is NOT covered: its harness (one entry per side) needs 30 min of CBMC on a quiet machine and is kept with a `deep_` prefix in no tier. Kani parts are bounded by operand size; Vec as output collection is trusted.",
     "technique": "contract-based deductive verification (Verus on the spliced body + lemma; Kani harness contracts against the product model)",
     "design": "DESIGN.md §5 C07",
 }
